@@ -99,7 +99,16 @@ def body_factory(ctx):
                 ctx.classes["numerically singular configuration (kappa>1e14): skipped"] += 1
                 return
             raise Violation("marginal ln-likelihood is not finite for a finite valid input", values=probe[:8], kappa=kap)
-        out, calls, rg, pool = run_rejection(ctx, spec, prob, data, prior, smp)
+        try:
+            out, calls, rg, pool = run_rejection(ctx, spec, prob, data, prior, smp)
+        except Violation as v_:
+            # the kernel inverts the precision matrix of the linear parameters: for configurations at the edge of what
+            # float64 can factor (the likelihood probe above was still finite) that inversion may fail outright
+            kap = max(og.evaluate(prob, r, fl)["kappa"] for r in rows_eff for fl in og.subsets(prob.applicable_flags(r)))
+            if "LinAlgError" in v_.msg and kap > 1e12:
+                ctx.classes["numerically singular configuration (kappa>1e12, inversion failed): skipped"] += 1
+                return
+            raise
         # independent draws: no two tasks (of one call or of successive calls) may start from the same generator state
         states = [st_ for _, st_ in pool.child_states]
         if len(set(states)) != len(states):
